@@ -175,6 +175,7 @@ def run(check, prog):
     cluster(check, prog)
     auto(check, prog)
     cscat_interpolation(check, prog)
+    work_array_regions(check, prog)
     co_indexed(check, prog)
     # a one-sphere cluster equals the single-sphere series only while the compiled
     # expansion can hold it (rule shared with C02)
@@ -364,6 +365,125 @@ def cscat_interpolation(check, prog):
                   'of the normalised polarisation', loc,
                   fail_detail='angles are %s and %s' % (show(a)[:120],
                                                         show(S[2][0])[:120]))
+
+
+def work_array_regions(check, prog):
+    """Q6: order independence inside the compiled cluster solver.  VCTRAN (the
+    translation of one sphere's expansion to another sphere's origin) unpacks the
+    packed translation matrix into the local work array AMNL before using it.
+    Local arrays of that size have static storage: an element that is read but
+    was not written in the same call still holds what an earlier call -- for
+    another pair of spheres -- left there, and the result then depends on the
+    order in which the pairs are visited, i.e. on the order of the sphere list.
+
+    The rule is an array-region check on the Fortran source: every reference
+    AMNL(c, i, d) is reduced to the pair (bound of i, bound of the order index d
+    is built from: d = x(x+1) +- m); each pair that is read must be covered by a
+    pair that is written, where nmax = max(nodrj, nodri) covers both orders."""
+    import os, re
+    from hpstatic.fortran import FortranProgram
+    rel = 'holopy/scattering/theory/mie_f/scsmfo_min.for'
+    fp = FortranProgram(prog.root, [rel])
+    u = fp.units.get('VCTRAN')
+    if u is None:
+        check.error('VCTRAN not found in %s' % rel)
+        return
+    ARR = 'amnl'
+    do_re = re.compile(r'^do\s+(\d+\s+)?(\w+)\s*=\s*([^,]+),([^,]+)(,.+)?$')
+    defs = {}
+    for line, text in u.stmts:
+        m = re.match(r'^(\w+)\s*=\s*(.+)$', text)
+        if m and not text.startswith('do '):
+            defs.setdefault(m.group(1), []).append(m.group(2).replace(' ', ''))
+
+    def order_var(name, seen=()):
+        """x such that `name` is x or x*(x+1) +- something"""
+        if name in seen:
+            return None
+        out = set()
+        for rhs in defs.get(name, []):
+            m = re.match(r'^(\w+)\*\(\1\+1\)([+-]\w+)?$', rhs)
+            if m:
+                out.add(m.group(1))
+                continue
+            m = re.match(r'^(\w+)([+-])(\w+)$', rhs)
+            if m:
+                v = order_var(m.group(1), seen + (name,))
+                if v:
+                    out.add(v)
+                    continue
+            return None
+        return next(iter(out)) if len(out) == 1 else None
+    stack = []
+    refs = []
+    ref_re = re.compile(r'\b' + ARR + r'\(([^()]*)\)')
+    for line, text in u.stmts:
+        t = text.strip()
+        m = do_re.match(t)
+        if m:
+            if m.group(1):
+                check.error('VCTRAN: labelled DO loop at line %d; region analysis '
+                            'handles DO ... ENDDO only' % line)
+                return
+            stack.append((m.group(2), m.group(4).replace(' ', '')))
+            continue
+        if t in ('enddo', 'end do'):
+            if stack:
+                stack.pop()
+            continue
+        if re.match(r'^(complex|real|integer|double|dimension|parameter|implicit)', t):
+            continue
+        lhs = t.split('=', 1)[0] if '=' in t and not t.startswith('if') else ''
+        for mm in ref_re.finditer(t):
+            subs = [x.strip() for x in mm.group(1).split(',')]
+            if len(subs) != 3:
+                continue
+            bounds = dict(stack)
+            i2 = subs[1]
+            x3 = order_var(subs[2]) if subs[2] not in bounds else subs[2]
+            if i2 not in bounds or x3 is None or x3 not in bounds:
+                check.error('VCTRAN line %d: cannot reduce %s(%s) to loop bounds' % (
+                    line, ARR, mm.group(1)))
+                return
+            is_write = mm.start() < len(lhs) and lhs.strip().startswith(ARR)
+            refs.append((is_write, bounds[i2], bounds[x3], line))
+    writes = sorted({(a, b) for w, a, b, l in refs if w})
+    reads = sorted({(a, b, l) for w, a, b, l in refs if not w})
+    check.floor('AMNL element stores in VCTRAN', sum(1 for r in refs if r[0]), 8)
+    check.floor('AMNL element reads in VCTRAN', sum(1 for r in refs if not r[0]), 8)
+
+    def covers(w, r):
+        w, r = w.replace(' ', ''), r.replace(' ', '')
+        if w == r:
+            return True
+        for rhs in defs.get(w, []):
+            m = re.match(r'^max\((\w+),(\w+)\)$', rhs)
+            if m and (covers(m.group(1), r) or covers(m.group(2), r)):
+                return True
+        m = re.match(r'^min\((\w+),(\w+)\)$', r)
+        if m and (covers(w, m.group(1)) or covers(w, m.group(2))):
+            return True
+        for rhs in defs.get(r, []):
+            m = re.match(r'^min\((\w+),(\w+)\)$', rhs)
+            if m and (covers(w, m.group(1)) or covers(w, m.group(2))):
+                return True
+        return False
+    done = set()
+    for a, b, line in reads:
+        if (a, b) in done:
+            continue
+        done.add((a, b))
+        ok = any(covers(wa, a) and covers(wb, b) for wa, wb in writes)
+        check.require(ok, 'Q6-work-array-filled', 'VCTRAN reads AMNL(_, <=%s, order<=%s)'
+                      % (a, b),
+                      'every element of the work array that is read was written in the '
+                      'same call', '%s:%d' % (rel, line),
+                      fail_detail='read over (%s, %s) but written only over %s: the '
+                      'remaining elements hold what the previous call (another pair of '
+                      'spheres) left in the static array -- with three or more spheres of '
+                      'different expansion orders the solution depends on the order of '
+                      'the sphere list (C_ext spread 8e-2, C_abs/C_ext = -9 %% for a '
+                      'lossless trimer)' % (a, b, writes))
 
 
 def co_indexed(check, prog):
